@@ -81,17 +81,25 @@ Fixpoint max_run_aux (q : N) (s : str) (cur best : nat) : nat :=
 Definition max_run (q : N) (s : str) : nat := max_run_aux q s O O.
 Definition next_odd (n : nat) : nat := (Nat.div2 (S n)) * 2 + 1.   (* n.div_ceil(2) * 2 + 1 *)
 
+(* `s.replace` of every double quote by backslash double-quote *)
+Definition escape_dquotes (s : str) : str := flat_map (fun c => if c =? c_dquote then [c_bslash; c_dquote] else [c]) s.
+
 Definition quote_string (s : str) : str :=
   if negb (contains c_dquote s) then c_dquote :: s ++ [c_dquote]
   else if negb (contains c_squote s) then c_squote :: s ++ [c_squote]
   else
     let q := if starts_with c_dquote s || ends_with c_dquote s then c_squote else c_dquote in
-    let d := repeat q (next_odd (max_run q s)) in
-    d ++ s ++ d.
+    if starts_with q s || ends_with q s then
+      (* no odd run of either quote can delimit this content: the double quotes are escaped instead *)
+      c_dquote :: escape_dquotes s ++ [c_dquote]
+    else
+      let d := repeat q (next_odd (max_run q s)) in
+      d ++ s ++ d.
 
 Definition fmt_string (s : str) : str := quote_string (escape_all_except_quotes s).
 
-(* the defect class of quote_string: both quotes occur and the chosen delimiter quote starts or ends the content *)
+(* both quotes occur and the quote that would be chosen as delimiter starts or ends the content
+   (before commit 5e36fe1 this was a defect class; now it selects the escaping branch) *)
 Definition quote_edge (s : str) : bool :=
   contains c_dquote s && contains c_squote s &&
   (let q := if starts_with c_dquote s || ends_with c_dquote s then c_squote else c_dquote in
@@ -308,6 +316,7 @@ Record idtab := {
   it_fmt_rest : list (N * N);
   it_disp_start : list (N * N);        (* display_ident_part classes *)
   it_disp_rest : list (N * N);
+  it_disp_reserved : list str;         (* display_ident_part RESERVED *)
   it_lex_keywords : list str;          (* lexer keyword() *)
 }.
 
@@ -326,7 +335,8 @@ Definition write_ident_part (T : idtab) (s : str) : str :=
 Definition display_ident_part (T : idtab) (s : str) : str :=
   match s with
   | [] => bt s
-  | c :: t => if in_ranges (it_disp_start T) c && forallb (in_ranges (it_disp_rest T)) t then s else bt s
+  | c :: t => if in_ranges (it_disp_start T) c && forallb (in_ranges (it_disp_rest T)) t
+                 && negb (existsb (leqb s) (it_disp_reserved T)) then s else bt s
   end.
 
 Fixpoint join_dot (parts : list str) : str :=
